@@ -1,3 +1,284 @@
 package props
 
-func workerMain() {}
+import (
+	"bufio"
+	"bytes"
+	"encoding/binary"
+	"fmt"
+	"io"
+	"os"
+	"os/exec"
+	"reflect"
+	"runtime"
+	"runtime/debug"
+	"strings"
+	"syscall"
+	"time"
+
+	hessian "github.com/vogo/gohessian"
+
+	"verif/harness/zoo"
+)
+
+// ---------------------------------------------------------------------------
+// Worker process: executes hostile decode jobs in isolation. The test binary
+// re-executes itself with VERIF_WORKER=1; jobs arrive length-prefixed on stdin,
+// one fixed-layout verdict per job goes to stdout.
+//
+//	job     ::= u32 len, u8 entry, u8 typeMapKind, payload
+//	verdict ::= u8 status (0 value, 1 error, 2 panic), u64 allocated octets, u64 nanoseconds, u16 len, message
+// ---------------------------------------------------------------------------
+
+var c14Entries = []string{"ToObject", "Decoder.Decode", "Decoder.ReadFrom", "Decoder.ReadObject x3", "Serializer.ToObject", "Serializer.ReadFrom+Read"}
+var c14TypeMaps = []string{"matching", "empty", "wrong"}
+
+var c14Maps [3]map[string]reflect.Type
+
+func c14InitMaps() {
+	// matching: everything the zoo can name (extracted from populated witnesses)
+	all := []interface{}{}
+	for _, t := range zoo.StructTypes {
+		all = append(all, reflect.New(t).Interface())
+	}
+	for _, t := range zoo.KTypes {
+		all = append(all, reflect.New(t).Interface())
+	}
+	all = append(all, zoo.NMap{}, zoo.PlainMap{}, &zoo.StrCarrier{}, &zoo.BinCarrier{}, &zoo.TimeCarrier{}, &zoo.IntFields{}, &zoo.IntLists{})
+	tm, _ := hessian.ExtractTypeNameMap(all)
+	c14Maps[0] = tm
+	c14Maps[1] = map[string]reflect.Type{}
+	// wrong: every name mapped to the type of the next name (classes to other
+	// classes, list names to struct types and vice versa)
+	names := make([]string, 0, len(tm))
+	for k := range tm {
+		names = append(names, k)
+	}
+	sortStrings(names)
+	wrong := map[string]reflect.Type{}
+	for i, k := range names {
+		wrong[k] = tm[names[(i+7)%len(names)]]
+	}
+	c14Maps[2] = wrong
+}
+
+func sortStrings(a []string) {
+	for i := 1; i < len(a); i++ {
+		for j := i; j > 0 && a[j] < a[j-1]; j-- {
+			a[j], a[j-1] = a[j-1], a[j]
+		}
+	}
+}
+
+// decodeVia runs one decode entry point; it must simply return.
+func decodeVia(entry int, in []byte, tm map[string]reflect.Type) (isErr bool) {
+	var err error
+	switch entry {
+	case 0:
+		_, err = hessian.ToObject(in, tm)
+	case 1:
+		_, err = hessian.NewDecoder(nil, tm).Decode(in)
+	case 2:
+		_, err = hessian.NewDecoder(nil, tm).ReadFrom(bufio.NewReader(bytes.NewReader(in)))
+	case 3:
+		d := hessian.NewDecoder(&countingReader{b: in}, tm)
+		for i := 0; i < 3; i++ {
+			if _, e := d.ReadObject(); e != nil {
+				err = e
+			}
+		}
+	case 4:
+		_, err = hessian.NewSerializer(tm, nil).ToObject(in)
+	case 5:
+		s := hessian.NewSerializer(tm, nil)
+		_, err = s.ReadFrom(&countingReader{b: in})
+		if _, e := s.Read(); e != nil {
+			err = e
+		}
+	}
+	return err != nil
+}
+
+func workerMain() {
+	// address-space limit: a declared length must not be able to take the machine down
+	lim := syscall.Rlimit{Cur: 4 << 30, Max: 4 << 30}
+	syscall.Setrlimit(syscall.RLIMIT_AS, &lim)
+	debug.SetMaxStack(512 << 20)
+	debug.SetGCPercent(400)
+	c14InitMaps()
+	in := bufio.NewReaderSize(os.Stdin, 1<<20)
+	out := bufio.NewWriterSize(os.Stdout, 1<<16)
+	var ms runtime.MemStats
+	for {
+		var hdr [4]byte
+		if _, err := io.ReadFull(in, hdr[:]); err != nil {
+			return
+		}
+		n := binary.LittleEndian.Uint32(hdr[:])
+		job := make([]byte, n)
+		if _, err := io.ReadFull(in, job); err != nil {
+			return
+		}
+		if n == 0 { // flush marker
+			out.Flush()
+			continue
+		}
+		entry, tmk, payload := int(job[0]), int(job[1]), job[2:]
+		status := byte(0)
+		msg := ""
+		runtime.ReadMemStats(&ms)
+		a0 := ms.TotalAlloc
+		t0 := time.Now()
+		func() {
+			defer func() {
+				if p := recover(); p != nil {
+					status = 2
+					msg = fmt.Sprintf("%v @ %s", p, panicSite())
+				}
+			}()
+			if decodeVia(entry, payload, c14Maps[tmk]) {
+				status = 1
+			}
+		}()
+		dt := time.Since(t0)
+		runtime.ReadMemStats(&ms)
+		alloc := ms.TotalAlloc - a0
+		if len(msg) > 400 {
+			msg = msg[:400]
+		}
+		var rep [19]byte
+		rep[0] = status
+		binary.LittleEndian.PutUint64(rep[1:], alloc)
+		binary.LittleEndian.PutUint64(rep[9:], uint64(dt))
+		binary.LittleEndian.PutUint16(rep[17:], uint16(len(msg)))
+		out.Write(rep[:])
+		out.WriteString(msg)
+	}
+}
+
+// panicSite names the innermost gohessian frame of a recovered panic.
+func panicSite() string {
+	st := string(debug.Stack())
+	lines := strings.Split(st, "\n")
+	for i, l := range lines {
+		if strings.Contains(l, "gohessian.") && !strings.Contains(l, "props.") && i+1 < len(lines) {
+			loc := strings.TrimSpace(lines[i+1])
+			if j := strings.LastIndex(loc, "/"); j >= 0 {
+				loc = loc[j+1:]
+			}
+			if j := strings.Index(loc, " "); j >= 0 {
+				loc = loc[:j]
+			}
+			fn := strings.TrimSpace(l)
+			if j := strings.Index(fn, "("); j > 0 && strings.HasPrefix(fn, "github.com") {
+				fn = fn[strings.LastIndex(fn[:j], "/")+1:]
+			}
+			if j := strings.LastIndex(fn, "("); j > 0 {
+				fn = fn[:j]
+			}
+			return fn + " " + loc
+		}
+	}
+	return "?"
+}
+
+// ---------------------------------------------------------------------------
+// Parent side
+// ---------------------------------------------------------------------------
+
+type job struct {
+	entry, tm int
+	payload   []byte
+	origin    string
+}
+
+type verdict struct {
+	status byte
+	alloc  uint64
+	nanos  uint64
+	msg    string
+}
+
+type worker struct {
+	cmd   *exec.Cmd
+	stdin io.WriteCloser
+	out   *bufio.Reader
+	pr    *os.File
+}
+
+func startWorker() (*worker, error) {
+	cmd := exec.Command(os.Args[0], "-test.run", "^$")
+	cmd.Env = append(os.Environ(), "VERIF_WORKER=1")
+	stdin, err := cmd.StdinPipe()
+	if err != nil {
+		return nil, err
+	}
+	pr, pw, err := os.Pipe()
+	if err != nil {
+		return nil, err
+	}
+	cmd.Stdout = pw
+	cmd.Stderr = nil
+	if err := cmd.Start(); err != nil {
+		return nil, err
+	}
+	pw.Close()
+	return &worker{cmd: cmd, stdin: stdin, out: bufio.NewReaderSize(pr, 1<<16), pr: pr}, nil
+}
+
+func (w *worker) kill() {
+	if w == nil || w.cmd == nil {
+		return
+	}
+	w.cmd.Process.Kill()
+	w.stdin.Close()
+	w.cmd.Wait()
+	w.pr.Close()
+}
+
+func (w *worker) send(jobs []job) error {
+	var buf bytes.Buffer
+	for _, j := range jobs {
+		var hdr [4]byte
+		binary.LittleEndian.PutUint32(hdr[:], uint32(len(j.payload)+2))
+		buf.Write(hdr[:])
+		buf.WriteByte(byte(j.entry))
+		buf.WriteByte(byte(j.tm))
+		buf.Write(j.payload)
+	}
+	buf.Write([]byte{0, 0, 0, 0}) // flush marker
+	_, err := w.stdin.Write(buf.Bytes())
+	return err
+}
+
+// recv reads one verdict, giving up after d.
+func (w *worker) recv(d time.Duration) (verdict, bool) {
+	w.pr.SetReadDeadline(time.Now().Add(d))
+	var rep [19]byte
+	if _, err := io.ReadFull(w.out, rep[:]); err != nil {
+		return verdict{}, false
+	}
+	v := verdict{status: rep[0], alloc: binary.LittleEndian.Uint64(rep[1:]), nanos: binary.LittleEndian.Uint64(rep[9:])}
+	n := binary.LittleEndian.Uint16(rep[17:])
+	if n > 0 {
+		m := make([]byte, n)
+		if _, err := io.ReadFull(w.out, m); err != nil {
+			return verdict{}, false
+		}
+		v.msg = string(m)
+	}
+	return v, true
+}
+
+// runAlone executes one job in a fresh worker with a generous budget; ok=false
+// means the worker died or did not answer.
+func runAlone(j job, budget time.Duration) (verdict, bool) {
+	w, err := startWorker()
+	if err != nil {
+		return verdict{}, false
+	}
+	defer w.kill()
+	if err := w.send([]job{j}); err != nil {
+		return verdict{}, false
+	}
+	return w.recv(budget)
+}
